@@ -356,6 +356,9 @@ pub fn run_case(sc: &Scenario, mode: &Mode) -> CaseOut {
                     vs.push(Violation { prop: "C14", clause: format!("history-differs/{}", what), detail: format!("{:?}", diff) });
                 } else if w3.disk != w.disk {
                     vs.push(Violation { prop: "C14", clause: format!("outputs-differ/{}", what), detail: String::new() });
+                } else if r3.offered_cleanup != res.offered_cleanup {
+                    // part of the final disposition of an executed Ephemeral: was its product released?
+                    vs.push(Violation { prop: "C14", clause: format!("cleanup-offers-differ/{}", what), detail: format!("{:?} vs {:?}", res.offered_cleanup, r3.offered_cleanup) });
                 }
             }
         }
@@ -394,7 +397,7 @@ pub fn run_case(sc: &Scenario, mode: &Mode) -> CaseOut {
                 out.evals += 1;
                 count += 1;
                 for v in re.violations.iter() {
-                    if v.prop == mode.prop || v.prop == "C06" {
+                    if v.prop == mode.prop || v.prop == "C06" || mode.prop == "ALL" {
                         vs.push(Violation { prop: v.prop, clause: v.clause.clone(), detail: format!("{} [enumerated schedule {:?}]", v.detail, idx) });
                     }
                 }
@@ -408,6 +411,8 @@ pub fn run_case(sc: &Scenario, mode: &Mode) -> CaseOut {
                         vs.push(Violation { prop: "C14", clause: "history-differs/enumerated-schedule".into(), detail: format!("schedule {:?}", idx) });
                     } else if we.disk != w.disk {
                         vs.push(Violation { prop: "C14", clause: "outputs-differ/enumerated-schedule".into(), detail: format!("schedule {:?}", idx) });
+                    } else if re.offered_cleanup != res.offered_cleanup {
+                        vs.push(Violation { prop: "C14", clause: "cleanup-offers-differ/enumerated-schedule".into(), detail: format!("schedule {:?}: {:?} vs {:?}", idx, res.offered_cleanup, re.offered_cleanup) });
                     }
                 }
                 // next schedule in depth-first order
